@@ -54,6 +54,35 @@ def run(ck, facts, tier):
     # the recursive solver's SCC bookkeeping and fixed-point test are shared with C01 / C05 / C10
     from props.c10 import scc_links
     scc_links(ck, facts, "C04.PROVISIONAL")
+
+    # "a Unique substitution is always an instance of the other solver's definite guidance": SLG's guidance is the anti-unifier's
+    # output, so the anti-unifier tables of C17 (different constructors / differing names, scalars, mutabilities -> fresh variable)
+    # are evaluated under C04 as well
+    class _Only:
+        """forwards one rule of another property's module to this check under a C04 name"""
+        def __init__(self, ck_, src, dst):
+            self.ck, self.src, self.dst = ck_, src, dst
+            self.notes, self.analysed, self.extract_info = ck_.notes, ck_.analysed, ck_.extract_info
+        def _m(self, r):
+            return self.dst if r == self.src else None
+        def rule(self, r, d):
+            if self._m(r):
+                self.ck.rule(self.dst, d)
+        def ok(self, r, inst, detail=""):
+            if self._m(r):
+                self.ck.ok(self.dst, inst, detail)
+        def violation(self, r, key, where="", detail=""):
+            if self._m(r):
+                self.ck.violation(self.dst, key, where, detail)
+        def floor(self, r, what, count, floor):
+            if self._m(r):
+                self.ck.floor(self.dst, what, count, floor)
+        def count(self, *a, **k):
+            pass
+        def require(self, *a, **k):
+            return True
+    import props.c17 as _c17
+    _c17.run(_Only(ck, "C17.DEFAULT-CONSERVATIVE", "C04.GUIDANCE-GENERALIZES"), facts, tier)
     from shared import fixedpoint
     fixedpoint.table(ck, facts, "C04.FIXED-POINT-TABLE", which=("stale",))
     R = "C04.CLAUSE-SOURCES"
